@@ -55,6 +55,19 @@ CHECKS = {
         "(_locals, _condition, _locals_with_block_condition) as documented in "
         "state.py; a refactoring of that representation needs the reader "
         "updated."),
+    "C12": (
+        "Hypothesis stub generation + corpus of bundled stubs, serialise/decode "
+        "round trip with byte comparison; pairwise eq/hash law over generated "
+        "type nodes",
+        "Generated stubs (resolved by the real loader and unresolved), all 18 "
+        "bundled .pytd stubs and stubs emitted for generated programs are "
+        "serialised, decoded, re-encoded; decoded declarations are compared "
+        "with the original both by pytd's ASTeq and by an independent "
+        "order-insensitive normal form; the eq/hash law is checked on all "
+        "ordered pairs of pooled type nodes incl. permuted unions.",
+        "Trusted: msgspec itself; the independent normal form in "
+        "props/c12_serialize.py (treats documented unordered collections as "
+        "sets)."),
 }
 
 PENDING_REASON = ("check not built yet in this round; planned per DESIGN.md "
